@@ -32,11 +32,7 @@ var errNoPunch = errors.New("punchHole not supported")
 // punchHole, if non-nil, punches a hole in f from offset to offset+size.
 var punchHole func(file *os.File, offset int64, size int64) error
 
-func (s *storage) delete(br blob.Ref) error {
-	meta, err := s.meta(br)
-	if err != nil {
-		return err
-	}
+func (s *storage) delete(br blob.Ref, meta blobMeta) error {
 	f, err := os.OpenFile(s.filename(meta.file), os.O_RDWR, 0666)
 	if err != nil {
 		return err
@@ -74,6 +70,12 @@ func (s *storage) delete(br blob.Ref) error {
 
 	// write back
 	if _, err = f.WriteAt(b, off); err != nil {
+		return err
+	}
+	// Make the deletion mark durable before the body is destroyed, so
+	// that no crash can leave a valid header in front of a zeroed body,
+	// and so that an acknowledged removal survives a power loss.
+	if err = f.Sync(); err != nil {
 		return err
 	}
 
